@@ -41,6 +41,24 @@ class MidiFileOutputDevice (OutputDevice):
         self.miditrack.append(Message('note_off', note=int(note), channel=int(channel), time=dt_ticks))
         self.last_event_time = self.time
 
+    def control(self, control=0, value=0, channel=0):
+        dt = self.time - self.last_event_time
+        dt_ticks = int(round(dt * self.midifile.ticks_per_beat))
+        self.miditrack.append(Message('control_change', control=int(control), value=int(value), channel=int(channel), time=dt_ticks))
+        self.last_event_time = self.time
+
+    def program_change(self, program=0, channel=0):
+        dt = self.time - self.last_event_time
+        dt_ticks = int(round(dt * self.midifile.ticks_per_beat))
+        self.miditrack.append(Message('program_change', program=int(program), channel=int(channel), time=dt_ticks))
+        self.last_event_time = self.time
+
+    def pitch_bend(self, pitch=0, channel=0):
+        dt = self.time - self.last_event_time
+        dt_ticks = int(round(dt * self.midifile.ticks_per_beat))
+        self.miditrack.append(Message('pitchwheel', pitch=int(pitch), channel=int(channel), time=dt_ticks))
+        self.last_event_time = self.time
+
     def write(self):
         #------------------------------------------------------------------------
         # When closing the MIDI file, append a dummy `note_off` event to ensure
